@@ -58,7 +58,7 @@ def compile_text(text, today=dt.date(2024, 6, 1), want_tree=True):
         return orig_walk(self, listener, tree)
 
     d = tempfile.mkdtemp(prefix="fc_")
-    res = {"status": "ok", "has_errors": None, "notes": None, "nerrors": None, "tree": None}
+    res = {"status": "ok", "has_errors": None, "notes": None, "nerrors": None, "tree": None, "texts": None}
     try:
         p = Path(d, "p.zo")
         p.write_bytes(text.encode("latin-1"))
@@ -68,6 +68,7 @@ def compile_text(text, today=dt.date(2024, 6, 1), want_tree=True):
                 page = _api.walk_zorg_page(Path(d), Path("p.zo"))
             res["has_errors"] = page.has_errors
             res["notes"] = [note_tuple(n) for n in page.notes]
+            res["texts"] = [n.to_string() for n in page.notes]      # the real text form of the real Note objects
         except Exception as e:  # noqa: BLE001
             res["status"] = type(e).__name__
             import traceback
